@@ -402,6 +402,11 @@ where
     let mut guard = shard.map.write_async().await;
 
     if let Some(entry_arc) = guard.get_mut(key) {
+      // An expired entry that has not been collected yet is not there for any
+      // read API; it must not be computed on either.
+      if entry_arc.is_expired(self.shared.time_to_idle) {
+        return ComputeResult::NotFound;
+      }
       if let Some(entry) = Arc::get_mut(entry_arc) {
         if let Some(value) = Arc::get_mut(&mut entry.value) {
           let user_value = f(value);
